@@ -30,6 +30,8 @@ class Raised(Exception):
 
     def __init__(self, exc, site=None):
         self.exc, self.site = exc, site
+        if site and isinstance(getattr(exc, "attrs", None), dict):
+            exc.attrs.setdefault("__site__", site)
         super().__init__(repr(exc))
 
     @property
